@@ -241,6 +241,16 @@ Definition mask_u (w : N) (mop v m : N) : N :=
 
 Definition zeros (n : nat) : bytes := repeat x00 n.
 
+(* DataType(): the bytes of a default-constructed value.  Point() is (0,0); Rect() is the "irrational" rectangle
+   (0,0,-1,-1) -- both taken from the compiled headers by the translator *)
+Definition nt_default (t : ntype) : bytes :=
+  match t with
+  | NBool => zeros 1 | NInt8 => zeros 1 | NInt16 => zeros 2 | NInt32 => zeros 4 | NInt64 => zeros 8
+  | NFloat => zeros 4 | NDouble => zeros 8
+  | NPoint => map byte_of_N c_QF_DEFAULT_POINT
+  | NRect => map byte_of_N c_QF_DEFAULT_RECT
+  end.
+
 (* `(_maskOp == NQF_MASK_OP_NONE) ? v : NQFDoMaskOp(_maskOp, v, _mask)`; the float/double/Point/Rect
    specialisations ignore their arguments and return a default-constructed value *)
 Definition num_apply_mask (t : ntype) (mop : N) (v msk : bytes) : bytes :=
@@ -251,10 +261,7 @@ Definition num_apply_mask (t : ntype) (mop : N) (v msk : bytes) : bytes :=
   | NInt16 => le_enc 2 (mask_u 16 mop (uval 16 v) (uval 16 msk))
   | NInt32 => le_enc 4 (mask_u 32 mop (uval 32 v) (uval 32 msk))
   | NInt64 => le_enc 8 (mask_u 64 mop (uval 64 v) (uval 64 msk))
-  | NFloat => zeros 4
-  | NDouble => zeros 8
-  | NPoint => zeros 8
-  | NRect => zeros 16
+  | NFloat | NDouble | NPoint | NRect => nt_default t
   end.
 
 Definition or_else {A} (a b : option A) : option A := match a with Some _ => a | None => b end.
